@@ -148,7 +148,8 @@ func c01Oracle(sp *Spec, x *X, res *mcrt.Result) (string, string) {
 func init() {
 	register(&Family{
 		Property: "C01",
-		Rule: "programs = refresh{auto,manual,none} x queue length{default,0,1} x bars{0,1,2(+1 late)} x sync layouts{plain, one column, unequal column heights} " +
+		Rule: "also (cross-family slice): the quick-tier programs of the other concurrent families (C03 C04 C05 C06 C12 C13 C14 C15 C17 C18; no pseudo terminals), with no deviation under every base strategy and one deviation under the first, judged by the verdict alone (no deadlock, starvation, livelock); " +
+			"programs = refresh{auto,manual,none} x queue length{default,0,1} x bars{0,1,2(+1 late)} x sync layouts{plain, one column, unequal column heights} " +
 			"plus variants (abort, abort+drop, remove-on-complete, pop mode, priority change, Progress.Write, cancel, Bar.Wait); all bars terminate. " +
 			"For each program every schedule within the deviation bound under three base strategies. Non-trivial = an execution with at least one choice point that had two or more alternatives; distinct = distinct observation records (frames, call results, verdict).",
 		Items: func(tier string) []Item {
